@@ -140,7 +140,7 @@ def run_C03(tier, seed):
         # completion reported by a strategy started at the root (start None or 0) => minimal trap spaces exact
         for idx, (op, st) in enumerate(zip(hist, w["steps"][1:]), start=1):
             complete = (op[0] in ("bfs", "dfs", "min") and op[1] in (None, 0) and st["real_result"] == "true") or (op[0] == "skiprem" and st["real_result"].startswith("nat:")) \
-                       or (op[0] in ("aseeds", "scc") and st["real_result"] == "true" and idx == 1) \
+                       or (op[0] == "aseeds" and st["real_result"] == "true" and idx == 1) or (op[0] == "scc" and st["real_result"] == "true") \
                        or (op[0] == "block" and st["real_result"] == "true")      # block expansion continues below nodes expanded earlier (fix D18)
             if complete and all(is_plain(o) or o[0] in ("skiprem", "min", "block", "aseeds", "scc") for o in hist[:idx]):
                 got = sorted(st["meta"]["minimal"])
